@@ -104,6 +104,18 @@ RunVerdict(c) ==
      ELSE "ok"
 
 (***************************************************************************)
+(* Frisky records (C21): the record graph must be well-formed and every     *)
+(* output key must carry the block value of the dask graph.                 *)
+(* c.g: the record graph; c.outvals: sequence of [id, rec, dask] (value     *)
+(* fingerprints of one output block via the records and via the dask graph) *)
+(***************************************************************************)
+RecordsVerdict(c) ==
+  \* (a key defined by two records is not judged: equal names denote equal arrays is C06's subject)
+  IF GraphVerdict(c) # "ok" THEN "records:" \o GraphVerdict(c)
+  ELSE IF \E j \in 1..Len(c.outvals) : c.outvals[j].rec # c.outvals[j].dask THEN "records-block-value-differs-from-the-dask-graph"
+  ELSE "ok"
+
+(***************************************************************************)
 (* (1) Model checking: all schedules of small graphs.                      *)
 (* Values are abstract: F(k, inputs) is an uninterpreted function of the   *)
 (* dependency values, modelled as the pair <<k, sorted dep values>>.       *)
